@@ -741,7 +741,7 @@ func c03RespelledGen(t *rapid.T) c03Respelled {
 
 func TestC03(t *testing.T) {
 	begin(t, "C03")
-	hx.Assume("reference interpreter written from the in-toto specification's rule algorithm; artifact names, patterns and prefixes are path-clean (the library cleans them as paths, the property defines no normalisation)")
+	hx.Assume("reference interpreter written from the in-toto specification's rule algorithm; artifact names, patterns and prefixes are path-clean (the library cleans them as paths, the property defines no normalisation); part pattern-spellings: un-clean patterns of non-MATCH rules, verdict must be that of the literal or of the path-cleaned reading, one reading for all rules")
 	ck := hx.Check[c03Case]{
 		Property: "C03", Part: "programs",
 		Rule:  "rapid-generated rule programs (all 7 types, 4 MATCH forms, keyword case variants, malformed rules) over nested artifact paths with same-named artifacts inside and outside prefixes, 1-2 hash algorithms, present/absent destination links, steps and inspections, both wrappers; names differing only in letter case and names continuing a prefix without a directory boundary; one third of the cases verify several items (own links, consuming rule lists) in the same call; one third of the programs have the usual layout shape (MATCH against a destination holding the item's artifacts moved between prefixes, then a closing DISALLOW/REQUIRE); non-trivial = removing one non-ALLOW rule changes the reference verdict; distinct by case JSON",
